@@ -161,6 +161,14 @@ func judgeUnits(r *kit.Run, costs unitCosts, tx *chain.Transaction, sponsor stat
 	if panicked {
 		return false, ""
 	}
+	// the units of a transaction are a function of the transaction: asking again (the processor,
+	// the builder and admission all do) must give the same answer, in particular after a refusal
+	var got2 fees.Dimensions
+	var err2 error
+	r.Guard("Transaction.Units", c, func() { got2, err2 = tx.Units(sponsorKeysBH{keys: sponsor}, rules) })
+	if (err == nil) != (err2 == nil) || (err == nil && got != got2) {
+		r.Violation("C12/units-differ-on-second-call", c, "first Units call returned (%v, %v), the second (%v, %v)", got, err, got2, err2)
+	}
 	switch {
 	case !fits && err == nil:
 		r.Violation("C12/units-overflow-accepted", c, "exact units overflow 64 bits in dimensions %v but Units returned %v without error", over, got)
